@@ -56,6 +56,20 @@ def check_options():
         raise DDSMTException('Command "{}" is not executable'.format(
             options.args().cmd[0]))
 
+    # check cross-check executable
+    if options.args().cmd_cc:
+        if not os.path.isfile(options.args().cmd_cc[0]):
+            raise DDSMTException(
+                'Cross-check command "{}" is not a regular file'.format(
+                    options.args().cmd_cc[0]))
+        if not os.access(options.args().cmd_cc[0], os.X_OK):
+            raise DDSMTException(
+                'Cross-check command "{}" is not executable'.format(
+                    options.args().cmd_cc[0]))
+
+    if options.args().jobs < 1:
+        raise DDSMTException('The number of jobs must be at least 1')
+
 
 def setup_logging():
     logging.CHAT = 25
